@@ -173,6 +173,11 @@ func TestBoundedRewardArithmetic(t *testing.T) {
 				big18 := ""
 				if staked.GTE(math.NewInt(1_000_000_000_000_000)) {
 					big18 = "@18dec" // 1e15 base units or more staked: an index increment below 1e-18 per token is lost (or rounded up) entirely
+					// the recorded finding needs an increment (deposit / staked) within a few thousand units of the 18th digit; a deposit
+					// large enough for six significant digits in the index is expected to be split correctly
+					if rw.Mul(math.NewInt(1_000_000_000_000)).GTE(staked) {
+						big18 = "@18dec_increment_has_6_digits"
+					}
 				}
 				if pa, ok := perAsset[AllianceDenom]; ok {
 					if pb, ok2 := perAsset[AllianceDenomTwo]; ok2 && len(paidList) == len(positions) {
@@ -252,6 +257,44 @@ func TestBoundedRewardArithmetic(t *testing.T) {
 			if paidA.Sub(shareA).Abs().GT(math.NewInt(3)) || paidB.Sub(shareB).Abs().GT(math.NewInt(3)) || paidA.Add(paidB).GT(total) {
 				fact("claims_across_a_weight_change_pay_each_deposit_once", "%s: three deposits of 4000000 were paid out as %s and %s (pro rata: %s and %s)", name, paidA, paidB, shareA, shareB)
 			}
+		}
+	}
+	// an 18-decimals asset next to a 6-decimals asset of equal weight on one validator: a deposit large enough to be representable in both
+	// indices is split evenly (neither asset is starved because its staked total is large)
+	for _, bigStake := range []string{"5000000000000000000", "70000000000000000000", "123456789012345678901"} {
+		cases++
+		name := "18-decimals asset with " + bigStake + " staked next to 1000000 of a 6-decimals asset"
+		app, ctx := createTestContext(t)
+		start := time.Now().UTC()
+		ctx = ctx.WithBlockTime(start).WithBlockHeight(1)
+		app.AllianceKeeper.InitGenesis(ctx, &types.GenesisState{
+			Params: types.DefaultParams(),
+			Assets: []types.AllianceAsset{
+				types.NewAllianceAsset(AllianceDenom, math.LegacyNewDec(1), math.LegacyNewDec(0), math.LegacyNewDec(100), math.LegacyNewDec(0), start),
+				types.NewAllianceAsset(AllianceDenomTwo, math.LegacyNewDec(1), math.LegacyNewDec(0), math.LegacyNewDec(100), math.LegacyNewDec(0), start),
+			},
+		})
+		bs, _ := math.NewIntFromString(bigStake)
+		addrs := test_helpers.AddTestAddrsIncremental(app, ctx, 4, sdk.NewCoins(sdk.NewCoin(AllianceDenom, bs), sdk.NewCoin(AllianceDenomTwo, math.NewInt(1_000_000)), sdk.NewCoin("rwa", math.NewInt(2_000_000_000))))
+		pks := test_helpers.CreateTestPubKeys(1)
+		valAddr := sdk.ValAddress(addrs[0])
+		test_helpers.RegisterNewValidator(t, app, ctx, teststaking.NewValidator(t, valAddr, pks[0]))
+		get := func() types.AllianceValidator {
+			v, err := app.AllianceKeeper.GetAllianceValidator(ctx, valAddr)
+			require.NoError(t, err, name)
+			return v
+		}
+		_, err := app.AllianceKeeper.Delegate(ctx, addrs[2], get(), sdk.NewCoin(AllianceDenom, bs))
+		require.NoError(t, err, name)
+		_, err = app.AllianceKeeper.Delegate(ctx, addrs[3], get(), sdk.NewCoin(AllianceDenomTwo, math.NewInt(1_000_000)))
+		require.NoError(t, err, name)
+		ctx = ctx.WithBlockHeight(2).WithBlockTime(start.Add(time.Minute))
+		require.NoError(t, app.AllianceKeeper.AddAssetsToRewardPool(ctx, addrs[1], get(), sdk.NewCoins(sdk.NewCoin("rwa", math.NewInt(2_000_000_000)))), name)
+		c1, e1 := app.AllianceKeeper.ClaimDelegationRewards(ctx, addrs[2], get(), AllianceDenom)
+		c2, e2 := app.AllianceKeeper.ClaimDelegationRewards(ctx, addrs[3], get(), AllianceDenomTwo)
+		half := math.NewInt(1_000_000_000)
+		if e1 != nil || e2 != nil || c1.AmountOf("rwa").Sub(half).Abs().GT(math.NewInt(100_000)) || c2.AmountOf("rwa").Sub(half).Abs().GT(math.NewInt(100_000)) {
+			fact("large_total_asset_is_not_starved", "%s: a deposit of 2000000000 was paid out as %s (err %v) and %s (err %v); each asset is due 1000000000 (0.01%% tolerance)", name, c1, e1, c2, e2)
 		}
 	}
 	fmt.Printf("BOUNDED-SUMMARY scenarios=%d seed=%d failed_facts=%d\n", cases, seed, len(failed))
